@@ -25,8 +25,9 @@ Next ==
   \/ \E P \in 1..2 : Do("saveload", <<P>>, SysSaveLoad(w, P))
   \/ \E m \in Mods \ {1, 2}, v \in {-1, 0, 700, 1024, 1025} : Do("set_volume", <<m, v>>, SysSetVol(w, m, v))
   \/ Do("failed_load", <<>>, SysFailedLoad(w))
-  \/ \E q \in 1..NP, m \in Mods : Do("set_note_mod", <<q, m>>, Lift(w, SetNoteMod(w.p, q, m)))
-  \/ \E q \in 1..NP : Do("get_note_mod", <<q>>, Lift(w, GetNoteMod(w.p, q)))
+  \* pattern 1 is a Pattern with a note cell; even pattern ids stand for PatternClone objects
+  \/ \E q \in {1}, m \in Mods : Do("set_note_mod", <<q, m>>, Lift(w, SetNoteMod(w.p, q, m)))
+  \/ \E q \in {1} : Do("get_note_mod", <<q>>, Lift(w, GetNoteMod(w.p, q)))
 Bound == /\ \A P \in 1..2 : Len(w.p.slots[P]) <= MaxSlots /\ Len(w.p.pats[P]) <= 2
          /\ \A m \in Mods : Len(w.t[m].inl) <= MaxLinks /\ Len(w.t[m].outl) <= MaxLinks
 Inv == SysCoherent(w)
